@@ -250,7 +250,9 @@ func groupKeyOf(top *gen.Metric, labels map[string]string) string {
 
 func c11Gen(t *rapid.T) MetricCase {
 	var c MetricCase
-	d := datagen.GenMetricDataN(t, 36, false, true, false, 2, 8)
+	// One case in five groups label sets whose names and values are prefixes, concatenations and
+	// spellings of one another (the key of a group has to tell them apart).
+	d := datagen.GenMetricDataN(t, 36, rapid.IntRange(0, 4).Draw(t, "ambiguous-labels") == 0, true, false, 2, 8)
 	unwrap := rapid.Bool().Draw(t, "unwrap")
 	opts := datagen.RangeOpts{KeepStage: true, NoOffset: true, Wide: true, Grouping: true}
 	if unwrap {
